@@ -276,7 +276,7 @@ def c17(out):
     out.rule = ("histories ending in cleanup for every object kind (CTR / parallel ECB) x cipher x back end, keyed with all-0xFF/random keys, tweaks and counters and left mid-batch so round keys, tweak, "
                 "counters and buffered keystream are non-zero; the allocator wrapper scans every byte of every block at the moment the library passes it to free(). A case counts as non-vacuous only if the "
                 "block held non-zero bytes right before cleanup (measured). Mandatory on the -O3 gcc and clang builds where a dead-store wipe would be optimised away.")
-    v = [("prod", n(out, 1800, 60000)), ("clang", n(out, 1800, 60000)), ("asan", n(out, 300, 6000))]
+    v = [("prod", n(out, 1800, 60000)), ("clang", n(out, 1800, 60000)), ("asan", n(out, 300, 6000)), ("prod+NOSIMD", n(out, 600, 6000)), ("clang+O2+W32", n(out, 600, 6000))]
     if out.tier == "thorough":
         v += [("clang+O2", 10000), ("prod+O2", 10000), ("prod+NOSIMD", 6000), ("prod+W32", 6000), ("clang+Os", 6000)]
     _life(out, "C17", "c17", v)
@@ -383,6 +383,9 @@ def c11(out):
     run_sharded(out, exe, ["--prop", "C11", "--mode", "xbe"], "msan", n(out, 1200, 40000), label="msan-ctr")
     exe = build_driver("drv_par", ["drv_par.c"] + HIST, "msan")
     run_sharded(out, exe, ["--prop", "C11", "--mode", "xbe"], "msan", n(out, 1200, 40000), label="msan-par")
+    # long-lived CTR objects with calls of 64 KiB..1 MiB under MSan: every output byte of every call is shadow-tested
+    exe = build_driver("drv_ctr", ["drv_ctr.c"] + HIST, "msan")
+    run_sharded(out, exe, ["--prop", "C11", "--mode", "marathon", "--marathon-ops", "4000", "--case-timeout", "600"], "msan", 7 if out.tier == "quick" else 28, shards=7, label="msan-marathon")
     exe = build_driver("drv_keys_vg", ["drv_keys.c"] + HIST, "prod", extra=["-DVH_VALGRIND"])
     run_sharded(out, exe, ["--prop", "C11", "--mode", "c11", "--case-timeout", "900"], "prod", n(out, 1600, 40000), label="memcheck-keys", wrapper=VG, timeout=3000)
     if out.tier == "thorough":
